@@ -208,9 +208,14 @@ def enum_specs(draw, prof=None):
         # the enum's MAX sits exactly on the limit of a (possibly narrower) integer type
         lim = [x for x in (2 ** 7 - 1, 2 ** 8 - 1, 2 ** 15 - 1, 2 ** 16 - 1, 2 ** 31 - 1, 2 ** 32 - 1, 2 ** 63 - 1)
                if lo <= x - span + 1 and x <= hi]
+        if r in ("usize", "isize") and lim:
+            # pointer-sized reprs: the 32-bit limits are where a guessed width goes wrong
+            lim = lim + [x for x in lim if x in (2 ** 31 - 1, 2 ** 32 - 1)] * 3
         start = (draw(st.sampled_from(lim)) - span + 1) if lim else draw(st.integers(lo, hi - span + 1))
     elif anchor == "narrow_min":
         lim = [x for x in (-2 ** 7, -2 ** 15, -2 ** 31, -2 ** 63, 0, 2 ** 8, 2 ** 16, 2 ** 32) if lo <= x and x + span - 1 <= hi]
+        if r in ("usize", "isize") and lim:
+            lim = lim + [x for x in lim if x in (-2 ** 31, 2 ** 32)] * 3
         start = draw(st.sampled_from(lim)) if lim else draw(st.integers(lo, hi - span + 1))
     else:
         start = draw(st.integers(lo, hi - span + 1))
@@ -461,7 +466,7 @@ def configs(draw, spec, force=(), forbid=(), p_on=0.5, params=True, split=True, 
             flags.append("value")
         if all(m.names[i].encode() < m.names[i + 1].encode() for i in range(m.n - 1)):
             flags.append("name")
-        pick = draw(st.lists(st.sampled_from(flags), unique=True)) if flags else []
+        pick = draw(st.sampled_from([flags, flags, flags[:1], flags[-1:], []])) if flags else []
         feats.append({"f": "sorted", "params": [[k, None] for k in pick]})
     if len(feats) > 1:
         feats = list(draw(st.permutations(feats)))
